@@ -3,8 +3,8 @@ from ..core import Script, Rng
 from ..stage import LineStage, replay_line
 from .common import *
 
-ARTEFACTS = ["G1-consts", "G2-rs-portable", "G2-ref-compress", "G15-rs-sse41", "G24-portable-many", "G16-rs-avx2", "G17-rs-sse2", "G21-c-avx512", "G21-c-avx512-prog", "G18-c-sse41", "G19-c-sse2", "G20-c-avx2", "G27-asm-sse41-compress", "G29-asm-sse2-compress", "G30-asm-avx512-compress", "G31-asm-avx512-compress-wgnu", "G32-asm-sse41-compress-wgnu", "G33-asm-sse2-compress-wgnu", "G37-asm-sse41-compress-msvc", "G40-asm-sse2-compress-msvc", "G41-asm-avx512-compress-msvc", "G34-asm-sse41-hash-many", "G44-asm-sse41-hash-many-wgnu"]
-EXTRA_PROPS = [("B3.Simd.Sse41Props", "B3/Simd/Sse41Props.lean"), ("B3.Simd.Sse41PropsMany", "B3/Simd/Sse41PropsMany.lean"), ("B3.Props.C05P", "B3/Props/C05P.lean"), ("B3.Simd.Avx2Props", "B3/Simd/Avx2Props.lean"), ("B3.Simd.Sse2Props", "B3/Simd/Sse2Props.lean"), ("B3.Simd.CAvx512Props", "B3/Simd/CAvx512Props.lean"), ("B3.Simd.CSse41Props", "B3/Simd/CSse41Props.lean"), ("B3.Simd.CSse2Props", "B3/Simd/CSse2Props.lean"), ("B3.Simd.CAvx2Props", "B3/Simd/CAvx2Props.lean"), ("B3.Props.C05A", "B3/Props/C05A.lean"), ("B3.Props.C05B", "B3/Props/C05B.lean"), ("B3.Props.C05BW", "B3/Props/C05BW.lean"), ("B3.Props.C05W", "B3/Props/C05W.lean"), ("B3.Props.C05WM", "B3/Props/C05WM.lean"), ("B3.Props.C05M", "B3/Props/C05M.lean"), ("B3.Props.C05MW", "B3/Props/C05MW.lean")]
+ARTEFACTS = ["G1-consts", "G2-rs-portable", "G2-ref-compress", "G15-rs-sse41", "G24-portable-many", "G16-rs-avx2", "G17-rs-sse2", "G21-c-avx512", "G21-c-avx512-prog", "G18-c-sse41", "G19-c-sse2", "G20-c-avx2", "G27-asm-sse41-compress", "G29-asm-sse2-compress", "G30-asm-avx512-compress", "G31-asm-avx512-compress-wgnu", "G32-asm-sse41-compress-wgnu", "G33-asm-sse2-compress-wgnu", "G37-asm-sse41-compress-msvc", "G40-asm-sse2-compress-msvc", "G41-asm-avx512-compress-msvc", "G34-asm-sse41-hash-many", "G44-asm-sse41-hash-many-wgnu", "G46-asm-avx2-hash-many"]
+EXTRA_PROPS = [("B3.Simd.Sse41Props", "B3/Simd/Sse41Props.lean"), ("B3.Simd.Sse41PropsMany", "B3/Simd/Sse41PropsMany.lean"), ("B3.Props.C05P", "B3/Props/C05P.lean"), ("B3.Simd.Avx2Props", "B3/Simd/Avx2Props.lean"), ("B3.Simd.Sse2Props", "B3/Simd/Sse2Props.lean"), ("B3.Simd.CAvx512Props", "B3/Simd/CAvx512Props.lean"), ("B3.Simd.CSse41Props", "B3/Simd/CSse41Props.lean"), ("B3.Simd.CSse2Props", "B3/Simd/CSse2Props.lean"), ("B3.Simd.CAvx2Props", "B3/Simd/CAvx2Props.lean"), ("B3.Props.C05A", "B3/Props/C05A.lean"), ("B3.Props.C05B", "B3/Props/C05B.lean"), ("B3.Props.C05BW", "B3/Props/C05BW.lean"), ("B3.Props.C05W", "B3/Props/C05W.lean"), ("B3.Props.C05WM", "B3/Props/C05WM.lean"), ("B3.Props.C05M", "B3/Props/C05M.lean"), ("B3.Props.C05MW", "B3/Props/C05MW.lean"), ("B3.Props.C05M8", "B3/Props/C05M8.lean")]
 RULE = ("kernel calls, compared with the model's kernels (generated from src/portable.rs, proved = Spec.compress): single-block "
         "kernels on the grid block_len 0..64 x flag byte classes with random cv/block and counters from {0,1,2^32-1,2^32,2^32+1,2^63,"
         "2^64-1,random}; hash_many with num_inputs 0..2*degree+3, blocks in {1,16}, counters 2^32-k (k<=17) and near 2^64 so every "
@@ -15,7 +15,9 @@ RULE = ("kernel calls, compared with the model's kernels (generated from src/por
 ASSUMPTIONS = ["hand-written assembly: the single-block routines (compress_in_place, compress_xof) of the unix, Windows-GNU and MSVC SSE4.1, SSE2 and "
                "AVX-512 files and blake3_hash_many_sse41 of the unix and of the Windows-GNU file are translated instruction by instruction and proved equal to the "
                "specification under the machine semantics B3/Asm/Sse.lean, Avx512Sem.lean, WinSem.lean, ManySem.lean (trusted; run against the CPU "
-               "here); the other many-input assembly routines (hash_many of SSE2 / AVX2 / AVX-512 and of the Windows files, xof_many) are not "
+               "here); blake3_hash_many_avx2 (unix) is translated instruction by instruction and run under B3/Asm/Avx2Sem.lean against the CPU, but only "
+               "its rounds 2-7, feed-forward and counter vectors are proved (Props/C05M8, all `_partial`); the other many-input assembly routines "
+               "(hash_many of SSE2 / AVX-512 and of the Windows files, xof_many) are not "
                "modelled at instruction level: a defect in them confined to an argument class no generator produces would be missed",
                "the lane models of the intrinsics (Simd/Prim*.lean) and the machine semantics are trusted descriptions of the hardware, compared with the CPU on every run"]
 NOT_PROVED = ["that the remaining hand-written many-input assembly routines implement the kernel contract "
@@ -356,10 +358,15 @@ class AsmSemStage:
 class AsmManyStage:
     """blake3_hash_many_sse41 (unix assembly, 1746 instructions with loops, stack frame and the 4-/2-/1-input paths) as translated
     (G34) and run by the machine semantics B3/Asm/ManySem.lean, against the assembled routine on the CPU: outputs, no fault,
-    callee-saved registers and rsp restored, no byte outside `out` and the frame touched"""
+    callee-saved registers and rsp restored, no byte outside `out` and the frame touched.  Likewise (G46) blake3_hash_many_avx2
+    (1733 instructions, B3/Asm/Avx2Sem.lean; the frame there also includes the `out` stack-argument slot, which the routine
+    overwrites), plus: every load the model logs lies inside what the routine may read"""
     name = "asm-hash-many-semantics-vs-cpu"
     # (cdriver symbol, runner script, lake module): the unix routine (G34) and the Windows-GNU one (G44, called through ms_abi)
-    TARGETS = [("sse41_asm", "RunAsmMany.lean", "B3.Asm.RunMany"), ("win_sse41_asm", "RunAsmManyW.lean", "B3.Asm.RunManyW")]
+    # G46: blake3_hash_many_avx2 (unix, 1733 instructions: 8-way ymm loop, 4-/2-/1-input tails) under B3/Asm/Avx2Sem.lean; its
+    # runner also reports ` reads` (every load of the model lies inside what the routine may read)
+    TARGETS = [("sse41_asm", "RunAsmMany.lean", "B3.Asm.RunMany"), ("win_sse41_asm", "RunAsmManyW.lean", "B3.Asm.RunManyW"),
+               ("avx2_asm", "RunAsmAvx2Many.lean", "B3.Asm.RunAvx2Many")]
 
     def __init__(self, seed, tier):
         self.seed, self.tier = seed, tier
@@ -390,8 +397,9 @@ class AsmManyStage:
         c_lines, l_lines, meta = [], [], []
         modes = [0, 0, 1] if self.tier == "quick" else [0] * 9 + [1] * 3      # `CK dirty` setting per repetition
         reps = len(modes)
-        for n in range(0, 10 if self.tier == "quick" else 24):
-            for blocks in ((1, 16) if n in (3, 7) or self.tier != "quick" else (1,)):
+        wide = sym == "avx2_asm"          # 8-way routine: reach two full groups of eight and every tail shape after them
+        for n in range(0, (21 if wide else 10) if self.tier == "quick" else 24):
+            for blocks in ((1, 16) if n in (3, 7, 9, 15, 20) or self.tier != "quick" else (1,)):
                 for incr in (0, 1):
                     for rep in range(reps):
                         counter = rng.choice(edge) if rep % 2 == 0 else rng.randrange(1 << 64)
@@ -432,10 +440,13 @@ class AsmManyStage:
             t = y.split(" ")
             good = len(t) >= 6 and t[0] == x.split(" ")[0] and t[1:3] == ["ok", "returned"] and t[-2:] == ["regs", "frame"] and " " not in x
             if x == "" and len(t) >= 5:       # n = 0: nothing is written
-                good = t[-5:-3] == ["ok", "returned"] and t[-2:] == ["regs", "frame"] or good
+                k0 = -6 if wide else -5
+                good = t[k0:k0 + 2] == ["ok", "returned"] and t[-2:] == ["regs", "frame"] or good
+            if wide:                          # the AVX2 runner's extra token: the model's read log stays inside the caller's buffers
+                good = good and len(t) >= 3 and t[-3] == "reads"
             if not good and len(mism) < 6:
                 mism.append(dict(kind="impl-vs-model", impl_name="c", ops=[a], impl_differs=True, impl_output=x[:300], model_output=y[:300],
-                                 note="blake3_hash_many_sse41 on the CPU differs from the translated instruction list under the machine semantics "
+                                 note="blake3_hash_many_" + ("avx2" if wide else "sse41") + " on the CPU differs from the translated instruction list under the machine semantics "
                                       "(or the model run faulted / lost a register / touched memory outside out and its frame); model input: " + l_lines[j][:200]))
         return dict(evaluations=evals, distinct={sym + ":" + l for l in l_lines}, hist={sym: evals}, samples=[], mismatches=mism)
 
